@@ -187,6 +187,8 @@ def run(case, j):
         for vi, (lab, (a, b, k)) in enumerate(variants.items()):
             if nm == "LRE" and vi not in (case["lre_subset"] if case["est"] == "ridge" else case["lre_subset"][:1]):
                 continue  # the local measure refits per test point: a subset of the five relations per case
+            if nm == "LRE" and case["idx"] == "bootstrap" and case["est"] != "ridge":
+                continue  # repeated training rows are exact distance ties: which copy enters which CV fold of the local fit is decided by rounding
             big = (float(np.abs(case["bx"]).max()) if "source" in lab else float(np.abs(case["by"]).max())) if "shifted" in lab else 0.0
             if big > 100 and (not well_posed or nm == "LRE"):
                 # fall back to an O(1) shift of the same direction (LRE: neighbour ranks must not be touched by rounding)
